@@ -231,7 +231,30 @@ OPS_ALL = ["create", "equal-copy", "equal-self", "equal-diff", "host-eq", "hash-
            "gc-live", "gc-dead", "drop", "host-drop", "serialize"]
 
 
+MODS = os.path.join(C.BUILD, "C18", "mods")
+MOD_BASE = {"mod-create": "create", "mod-equal-copy": "equal-copy", "mod-hash-code": "hash-code", "mod-display-len": "display-port",
+            "mod-gc-dead": "gc-dead", "mod-drop": "drop"}
+
+
 def program(shape, op, n):
+    if op in MOD_BASE:
+        # the same operation inside a file that is `require`d: module-level code is compiled (and jit compiled) along
+        # other paths than top-level forms
+        if op == "mod-display-len":
+            mk = build_src(shape, n, "d")
+            pieces = [mk, "(define o (open-output-string))\n(display d o)",
+                      "(begin (simple-display \"R \") (simple-display (string-length (get-output-string o))) (newline))"]
+            exp = {"R": ["INT"]}
+        else:
+            pieces, exp = op_pieces(MOD_BASE[op], shape, n)
+        body = PRELUDE + "\n".join(pieces) + "\n"
+        os.makedirs(MODS, exist_ok=True)
+        import hashlib
+        path = os.path.join(MODS, "m%s.scm" % hashlib.sha1(body.encode()).hexdigest()[:16])
+        if not os.path.exists(path):
+            with open(path, "w") as f:
+                f.write(body)
+        return ";; module file %s:\n%s(require \"%s\")\n" % (path, "".join(";;   " + l + "\n" for l in body.split("\n")[:40]), path), exp
     pieces, exp = op_pieces(op, shape, n)
     return PRELUDE + SEP.join(pieces) + "\n", exp
 
@@ -383,6 +406,9 @@ def judge(res, exp, want_text=None):
             if w == "BOOL":
                 if g not in ("#true", "#false"):
                     return "wrong", "expected a boolean, got %r" % g
+            elif w == "INT":
+                if not g.isdigit():
+                    return "wrong", "expected a length, got %r" % g[:80]
             elif g != w:
                 return "wrong", "expected %r, got %r" % (w, g[:200])
     if "eq" in exp:
@@ -418,11 +444,14 @@ def model_shape(shape):
 INVOLVED = {
     "create": [], "equal-copy": ["eq", "eq-key-depth"], "equal-self": ["eq", "eq-key-depth"], "equal-diff": ["eq", "eq-key-depth"],
     "host-eq": ["eq", "eq-key-depth"], "hash-key": ["hash"], "hash-set": ["hash"], "hash-code": ["hash"], "host-hash": ["hash"],
-    "display-port": ["collect", "print-depth"], "write-port": ["collect", "print-depth"], "print-port": ["collect", "print-depth"],
+    "display-port": ["collect", "print-depth", "prelude-print"], "write-port": ["collect", "print-depth"],
+    "print-port": ["collect", "print-depth", "prelude-print"],
     "host-display": ["collect", "print-depth"], "host-debug": ["collect", "print-depth"],
     "send-channel": [], "thread-result": [], "gc-live": ["mark"], "gc-dead": ["mark", "drop"], "drop": ["drop"],
     "host-drop": ["drop"], "serialize": ["serialize", "collect", "print-depth"],   # the error message prints the value
 }
+for _m, _b in MOD_BASE.items():
+    INVOLVED[_m] = INVOLVED[_b]
 KEYED = ("map-key", "set")      # shapes whose keys are containers: building and looking up hashes and compares the keys
 
 # configuration flag of the model (= what the code lacks) -> finding class.  The classes of repaired defects keep their
@@ -503,12 +532,14 @@ def explain(shape, op, verdict, detail, pred, table):
         cls, cause = p[mo][0], p[mo][1]
         if cls == "constant" or cause == "-":
             continue
-        depth_op = mo in ("hash", "print-depth", "drop-depth", "eq-key-depth")
+        depth_op = mo in ("hash", "print-depth", "drop-depth", "eq-key-depth", "prelude-print")
         if verdict == "crash" and (depth_op or cls == "diverges"):
             causes.append(cause)
         elif verdict == "timeout":
             causes.append(cause)
         elif verdict in ("panic", "wrong") and cls == "diverges":
+            causes.append(cause)
+        elif verdict == "error-value" and cls == "diverges":
             causes.append(cause)
     if shape.startswith("cycle:") and op in PRINT_OPS and verdict == "panic":
         causes.insert(0, "labels")          # the panic is the label lookup, whatever else is wrong with the value
@@ -576,6 +607,14 @@ def plan(ctx, rng):
                     stacks = ["main", "thread"]
                 for st in stacks:
                     cases.append((shape, op, size, st, b, small))
+    # a sample of the same operations as module-level code of a required file
+    for shape in ("list", "mvec", "struct", "mstruct", "box", "closure", "pair-car"):
+        for op in MOD_BASE:
+            if shape == "pair-car" and op == "mod-display-len":
+                continue
+            for n in ([100000] if quick else [100000, 1000000]):
+                for st in (["main"] if quick else ["main", "thread"]):
+                    cases.append((shape, op, n, st, 8 if quick else (30 if n <= 100000 else 90), False))
     # shared immutable structure: depth 64 is 2^64 leaves unfolded
     for op in ("create", "equal-copy", "equal-self", "gc-live", "gc-dead", "drop", "send-channel", "hash-code"):
         cases.append(("dag", op, 64 if quick else 200, "main", 5 if quick else 30, False))
@@ -734,7 +773,7 @@ def run(ctx):
     for i, c in enumerate(cases):
         shape, op, n, st, bound, small = c
         src, exp = progs[i]
-        if shape in ("closure", "stream") and op in ("equal-copy", "host-eq"):
+        if shape in ("closure", "stream") and op in ("equal-copy", "host-eq", "mod-equal-copy"):
             exp = dict(exp)
             if "R" in exp:
                 exp["R"] = ["#false"]      # procedures and streams are compared by identity
@@ -756,7 +795,7 @@ def run(ctx):
             # the tie in the other direction: where the model says the code never returns, the code must not return
             mp = pred.get(model_shape(shape) or "", {})
             strict = {"equal-copy": ["eq"], "host-eq": ["eq"], "gc-live": ["mark"], "hash-code": ["hash"],
-                      "display-port": ["collect"], "host-display": ["collect", "print-depth"]}
+                      "display-port": ["collect", "prelude-print"], "host-display": ["collect", "print-depth"]}
             for mo in strict.get(op, []):
                 if shape.startswith("cycle:") and mo in mp and mp[mo][0] == "diverges":
                     stats["model_disagreements"].append("%s %s stack=%s: model op %s diverges (%s), the real engine answered" % (
